@@ -23,6 +23,42 @@ CLAIMED = {
             "a validator's accepted claim nonces after the first are consecutive, a non-consecutive or repeated claim is rejected without writes.",
             "Same trusted base as C02; a validator's first claim is not constrained (the module picks its own starting point).",
             "DESIGN.md §4 C03"),
+    "C04": ("exploration",
+            "stateful property-based testing (rapid): whole-bridge histories, placement/life-cycle invariant after every step",
+            "Generated histories (send, cancel, request-batch, auto-batching, deposits, cross-chain transfers, batch execution in any admissible order, "
+            "external clock, time jumps, expiry) run against the real msg server and blockers; after every step every transfer id must be in exactly one of "
+            "{pool, one batch}, may disappear only through an applied execution of its batch or a refund (cancel by sender / expiry), never reappear, carry a fresh "
+            "strictly increasing id, and its reported status must match its place (REFUNDED and BATCH_EXECUTED final).",
+            "External chains are the abstract world of harness/bridge/world.go; one send per transaction (status is keyed by tx hash).",
+            "DESIGN.md §4 C04"),
+    "C05": ("exploration",
+            "stateful property-based testing (rapid) with a watchdog: no blocker may panic or deadlock on the cache-wrapped block store",
+            "Histories with bursts of 30-120 pool writes per block, amounts up to 2^200, decimals 0..24, tiny commissions, up to 5 validators, hostile external events "
+            "(negative/huge fees, unknown tokens, odd receivers) and time jumps; BeginBlocker/EndBlocker of mhub2 and oracle run in a goroutine under a watchdog that "
+            "declares a deadlock only for the MemDB write-lock-under-open-iterator signature; a panic in a blocker is a violation, a panic in a message handler is a failed tx.",
+            "Configuration preconditions kept: every denom is registered on minter and has a price (see DESIGN.md findings d). Deadlock detection is structural, never a time-out.",
+            "DESIGN.md §4 C05"),
+    "C10": ("exploration",
+            "stateful property-based testing (rapid): validity predicate over every newly stored batch",
+            "Same histories as C04 with permissionless batch requests at any time, Minter coin ids 1/10/101 and >100 transfers per token; every batch that appears must be "
+            "non-empty, <=100 transfers, all of its own chain and token, a top-k-by-fee selection of that token's unbatched transfers (nothing left behind pays more; below the cap nothing is left), "
+            "with batch nonce = previous+1 and outgoing sequence (batches and signer sets together) = previous+1.",
+            "A batch counts as offered for signing once stored as an outgoing tx.",
+            "DESIGN.md §4 C10"),
+    "C12": ("exploration",
+            "stateful property-based testing (rapid) with an exact-arithmetic refund oracle",
+            "Cancel messages by the sender, other users, for batched/unknown/already cancelled ids and expiry around the timeout; a cancel must succeed iff the id is unbatched and the sender matches, "
+            "a refused cancel leaves the state hash unchanged, a successful one (or an expiry) removes the entry, sets REFUNDED and pays exactly fromExt(amount+fee+commission) once to the hub sender, "
+            "or creates exactly one transfer of that value back to the originating address on the originating chain; nothing is refunded before the timeout.",
+            "Exact expiry amounts are compared in EndBlocks without applied external events; internal payout legs of the module's transit account are out of scope.",
+            "DESIGN.md §4 C12"),
+    "C13": ("exploration",
+            "stateful property-based testing (rapid) against the contract's execution rule",
+            "Batch histories on ethereum/bsc/minter with several tokens and a generated external clock; whenever a batch leaves the hub without its own execution event the external side must be "
+            "unable to execute it now or later (batch nonce <= last executed nonce of its token, or height >= timeout) and the hub must have a reason (observed height beyond the timeout, or a later same-token "
+            "batch observed executed); Minter batches are never withdrawn; an observed execution removes exactly that batch and older same-token batches, whose transfers return to the pool.",
+            "Contract rule modelled in harness/bridge/world.go (nonce per token increasing, block < timeout; Minter: strict sequence order).",
+            "DESIGN.md §4 C13"),
 }
 
 NOT_YET = "check not built yet in this round (planned in DESIGN.md §4); not claimed until its machinery exists"
